@@ -14,9 +14,18 @@ namespace nmtools::index
     struct shape_take_t {};
 
     template <typename shape_t, typename indices_t, typename axis_t>
-    constexpr auto shape_take(const shape_t& shape, const indices_t& indices, [[maybe_unused]] axis_t axis)
+    constexpr auto shape_take(const shape_t& shape, const indices_t& indices, [[maybe_unused]] axis_t axis_)
     {
         using return_t = meta::resolve_optype_t<shape_take_t,shape_t,indices_t,axis_t>;
+        // a negative axis counts from the last axis (as in numpy)
+        [[maybe_unused]] const auto axis = [&](){
+            if constexpr (is_none_v<axis_t>) {
+                return axis_;
+            } else {
+                const auto a = static_cast<nm_index_t>(axis_);
+                return (a < 0) ? static_cast<nm_index_t>(a + static_cast<nm_index_t>(len(shape))) : a;
+            }
+        }();
 
         auto res = return_t {};
 
@@ -53,9 +62,18 @@ namespace nmtools::index
     } // shape_take
 
     template <typename index_t, typename shape_t, typename indices_t, typename axis_t>
-    constexpr auto take(const index_t& index, const shape_t& shape, const indices_t& indices, [[maybe_unused]] axis_t axis)
+    constexpr auto take(const index_t& index, const shape_t& shape, const indices_t& indices, [[maybe_unused]] axis_t axis_)
     {
         using return_t = meta::resolve_optype_t<take_t,index_t,shape_t,indices_t,axis_t>;
+        // a negative axis counts from the last axis (as in numpy)
+        [[maybe_unused]] const auto axis = [&](){
+            if constexpr (is_none_v<axis_t>) {
+                return axis_;
+            } else {
+                const auto a = static_cast<nm_index_t>(axis_);
+                return (a < 0) ? static_cast<nm_index_t>(a + static_cast<nm_index_t>(len(shape))) : a;
+            }
+        }();
 
         auto res = return_t {};
         [[maybe_unused]] auto dim = len(shape);
